@@ -11,7 +11,7 @@ Dynamic part (oracle): generated cross-file workspaces are loaded once into an A
 T threads query every file (diagnose_file + semantic info of every name token) simultaneously for R rounds;
 every answer must equal the sequential answer.
 """
-import os, sys, json
+import os, sys, json, re
 sys.path.insert(0, os.path.dirname(os.path.abspath(__file__)))
 sys.path.insert(0, os.path.join(os.path.dirname(os.path.dirname(os.path.abspath(__file__))), "gen"))
 from tools_lib import *
@@ -76,15 +76,77 @@ def static_part(rep):
                     rep.mismatch({"input": {"type": order[i]}, "what": "rustc (hook H6) says neither Send nor Sync, the derivation model disagrees"})
                 else:
                     rep.traces_validated += 1
-    rep.sample({"part": "static", "nodes": len(order), "rounds": rounds,
+    # shared mutable state reachable from &EmmyLuaAnalysis (the Lean theorem C38_shared_mutable_allowed is the bridge;
+    # here the same list is evaluated against the allow-list text of Props/C38.lean as the implementation-side oracle)
+    shared = at.shared_mutable(nodes)
+    rep.count("static.shared_mutable_state", len(shared))
+    props = open(os.path.join(ROOT, "lean", "EmmyVerif", "Props", "C38.lean")).read()
+    m_allow = re.search(r"def allowedSharedMutable : List String := \[(.*?)\]", props, re.S)
+    allowed = set(json.loads("[" + m_allow.group(1) + "]")) if m_allow else set()
+    for x in shared:
+        rep.evaluations += 1
+        if x not in allowed:
+            rep.oracle_failure({"input": {"shared_state": x}, "class": "unreviewed-shared-mutable-state",
+                                "what": f"shared mutable state reachable from concurrent read-only queries and not in the justified allow-list: {x}"})
+    rep.sample({"part": "static", "nodes": len(order), "rounds": rounds, "shared_mutable_state": shared,
                 "not_thread_safe_by_derivation": [order[i] for i, v in enumerate(sol) if not (v[0] and v[1])][:12],
                 "unsafe_impls": [f"{u['trait']} for {u['type']}" for u in unsafe_impls]})
+
+
+TEMPLATE_TYPES = """---@class Cfg
+---@field name string
+---@field port integer
+---@field on boolean
+---@field tags string[]
+
+---@class Point
+---@field x number
+---@field y number
+
+---@alias Mode "fast"|"slow"
+"""
+
+TEMPLATE_PIECES = [
+    "---@type Cfg\nlocal cfg{k} = {{ name = 1, port = \"80\", on = \"yes\", tags = {{ 1, 2 }} }}\nprint(cfg{k}.nofield)\n",
+    "---@type Cfg[]\nlocal list{k} = {{ {{ name = true, port = 1.5, on = 0 }}, {{ name = \"ok\", port = \"x\", on = 1 }} }}\nprint(list{k})\n",
+    "---@type Point\nlocal pt{k} = {{ x = \"a\", y = {{}} }}\nprint(pt{k}.z)\n",
+    "---@type table<string, integer>\nlocal map{k} = {{ a = \"x\", b = true, c = 3 }}\nprint(map{k})\n",
+    "local unused{k} = 1\nlocal unused_b{k} = {{}}\n",
+    "print(undefined_one{k}, undefined_two{k})\n",
+    "---@param n integer\n---@param s string\nlocal function f{k}(n, s) return n, s end\nf{k}(\"a\", 2)\nf{k}({{}}, {{}})\n",
+    "---@type string\nlocal s{k} = 1\n---@type Mode\nlocal m{k} = \"medium\"\nprint(s{k}, m{k})\n",
+    "---@deprecated\nlocal function old{k}() end\nold{k}()\n",
+    "---@type Point\nlocal q{k} = {{ x = 1, y = 2 }}\nq{k}.w = 3\nprint(q{k}.x + \"s\")\n",
+]
+
+
+def gen_template_workspace(rng, base):
+    """N byte-identical files generated from one template (typed table literals whose fields violate the declared type at
+    the same offsets in every copy, unused locals, undefined globals, param mismatches, …) + near-identical variants"""
+    pieces = rng.shuffle(TEMPLATE_PIECES)[: rng.range(5, len(TEMPLATE_PIECES))]
+    if not any("cfg" in p for p in pieces):
+        pieces.insert(0, TEMPLATE_PIECES[0])
+    body = "".join(p.format(k=i) for i, p in enumerate(pieces))
+    n = rng.range(8, 14)
+    files = {"main/types.lua": TEMPLATE_TYPES}
+    for i in range(n):
+        files[f"main/copy{i:02d}.lua"] = body
+    # near-identical: same prefix (same offsets for the first literals), differences further down / in values
+    files["main/near_tail.lua"] = body + "local tail_only = undefined_tail\nprint(tail_only)\n"
+    files["main/near_value.lua"] = body.replace("port = \"80\"", "port = \"81\"").replace("name = 1", "name = 2")
+    files["main/near_fixed.lua"] = body.replace("name = 1, port = \"80\", on = \"yes\", tags = { 1, 2 }",
+                                                "name = \"\", port = 8080, on = true,  tags = { \"\" }")
+    files["main/shifted.lua"] = "-- one more line\n" + body
+    files["main/.emmyrc.json"] = json.dumps({"diagnostics": {"enables": ["undefined-field", "inject-field"]}})
+    write_tree(base, files)
+    return {"files": files, "template": True}
 
 
 def dynamic_part(rep, rng, nws, threads, rounds):
     for w in range(nws):
         base = workdir(f"C38_ws{w}")
-        spec = tools_c11.gen_workspace(rng, base)
+        template = (w % 2 == 0)
+        spec = gen_template_workspace(rng, base) if template else tools_c11.gen_workspace(rng, base)
         main = os.path.join(base, "main")
         rc, out, err = run_proc([VH, "conc", main, str(threads), str(rounds)], timeout=600)
         if rc != 0:
@@ -95,11 +157,21 @@ def dynamic_part(rep, rng, nws, threads, rounds):
         rep.evaluations += r["file_queries"]
         rep.count("dynamic.workspaces"); rep.count("dynamic.file_queries", r["file_queries"])
         rep.count("dynamic.answer_lines_per_pass", r["answer_lines"]); rep.count("dynamic.files", r["files"])
+        rep.count("dynamic.template_workspaces" if template else "dynamic.crossfile_workspaces")
+        rep.count("dynamic.sequential_diagnostics", r["sequential_diagnostics"])
+        rep.count("dynamic.lockstep_diagnostics_seen", r["lockstep_diagnostics_seen"])
+        for c, k in r["diagnostic_codes"].items():
+            rep.count(f"dynamic.code.{c}", k)
+        if r["lockstep_diagnostics_seen"] != r["lockstep_diagnostics_expected"]:
+            rep.oracle_failure({"input": {"part": "dynamic", "workspace": spec, "threads": threads, "rounds": rounds}, "class": None,
+                                "what": f"concurrent diagnose_file calls returned {r['lockstep_diagnostics_seen']} diagnostics in total, sequential calls {r['lockstep_diagnostics_expected']}"})
+        if template and (r["sequential_diagnostics"] < 10 * r["files"] // 2 or len(r["diagnostic_codes"]) < 4):
+            rep.notes.append(f"template workspace {w} is weak: {r['sequential_diagnostics']} diagnostics, codes {sorted(r['diagnostic_codes'])}")
         if r["answer_lines"] > r["files"]:
             rep.nontrivial(["dyn", spec["files"], threads, rounds])
         if r["failures"]:
             rep.oracle_failure({"input": {"part": "dynamic", "workspace": spec, "threads": threads, "rounds": rounds}, "class": None,
-                                "what": f"{len(r['failures'])} concurrent answers differ from the sequential ones, e.g. {json.dumps(r['failures'][0])[:400]}"})
+                                "what": f"{r.get('failure_count', len(r['failures']))} concurrent answers differ from the sequential ones, e.g. {json.dumps(r['failures'][0])[:500]}"})
         else:
             rep.traces_validated += r["file_queries"]
         if w == 0:
@@ -125,9 +197,9 @@ def main():
                 rep.oracle_failure({"input": inp, "class": None, "what": f"replay: {json.dumps(res['failures'][0])[:400]}"})
         rep.write(a.out); return
     if a.thorough:
-        dynamic_part(rep, rng.fork(), 120, 16, 6)
+        dynamic_part(rep, rng.fork(), 80, 16, 6)
     else:
-        dynamic_part(rep, rng.fork(), 10, 8, 3)
+        dynamic_part(rep, rng.fork(), 10, 10, 4)
     rep.write(a.out)
 
 
